@@ -3,6 +3,7 @@ package main
 import (
 	"fmt"
 	"verifsim/gen"
+	"verifsim/kernel"
 
 	"verifsim/parsersim"
 )
@@ -53,6 +54,11 @@ var propC16 = &pProp{
 				plan := drawPlan(r, gp.HasState)
 				if r.chance(1, 3) {
 					plan.NestedPct = 50
+				}
+				if r.chance(1, 6) && len(gp.G.Sites) > 0 {
+					// a code block that panics: with Recover(false) the panic reaches the
+					// caller, with or without a budget that is not exhausted
+					plan.Faults = []kernel.Fault{{Site: 1 + r.intn(len(gp.G.Sites)), N: 1 + r.intn(2), Kind: []string{"panic-err", "panic-str"}[r.intn(2)]}}
 				}
 				reqs = append(reqs, &parsersim.Request{ID: fmt.Sprintf("c16-%s-i%d-o%d", gp.Name, ii, k), Kind: "c16", Parser: gp.Name,
 					Call: parsersim.Call{Input: in, Opts: o, Plan: plan},
